@@ -744,8 +744,8 @@ func dynamicFmtString(m dsl.Matcher) {
 		Report(`use errors.New($f) or fmt.Errorf("%s", $f) instead`)
 
 	m.Match(`fmt.Errorf($f($*args))`).
-		Suggest("errors.New($f($*args))").
-		Report(`use errors.New($f($*args)) or fmt.Errorf("%s", $f($*args)) instead`)
+		Suggest("errors.New($f($args))").
+		Report(`use errors.New($f($args)) or fmt.Errorf("%s", $f($args)) instead`)
 }
 
 //doc:summary Detects strings.Compare usage
